@@ -68,3 +68,24 @@ Theorem C16_proposer_credit : forall s s' ups,
     bal_of (work s') a = bal_of (work s) a + end_fee (bctx s) a + refunds_to items h a.
 Proof. exact end_block_balances. Qed.
 Print Assumptions C16_proposer_credit.
+
+(* ---- the effect contract replaced by the CHECKED boolean (EffectCheck.v): in a history on which
+   [check_effects] passed ([effects_hold], by check_effects_sound), a delivery that takes the EVM
+   path and succeeds with gas [gas]: gas used is within the limit, the fee sum grows by gas x price,
+   the touched accounts (each listed once) lose in total exactly gas x price + burn with burn >= 0,
+   and no other balance moves *)
+From Rigo Require AppRun EffectCheck InvEvmClosed.
+Theorem C16_evm_cost_checked : forall g rest senders pre t post s s' gas,
+  InvEvmClosed.no_init rest ->
+  EffectCheck.effects_hold senders AppRun.state0 (AppRun.AInit g :: rest) ->
+  InvEvmClosed.sops_of rest = pre ++ SDeliver t :: post -> s = srun (init_chain g) pre ->
+  deliver s t = (s', Ok gas) -> ~ native s t ->
+  exists e burn,
+    t_evm t = Some e /\ e_ok e = true /\ gas = e_gas e /\ 0 <= gas <= t_gas t /\
+    b_feesum (bctx s') = add256 (b_feesum (bctx s)) (mul256 gas (g_gasPrice (gparams s))) /\
+    0 <= burn /\ NoDup (InvEvmClosed.eff_addr <$> e_accts e) /\
+    sumZ_with (fun a => bal_of (work s) a - bal_of (work s') a) (InvEvmClosed.eff_addr <$> e_accts e)
+      = gas * g_gasPrice (gparams s) + burn /\
+    (forall a, a ∉ InvEvmClosed.eff_addr <$> e_accts e -> bal_of (work s') a = bal_of (work s) a).
+Proof. exact InvEvmClosed.C16_evm_cost_checked. Qed.
+Print Assumptions C16_evm_cost_checked.
